@@ -158,6 +158,13 @@ def build(kind, nm):
             mags = [0.7 + 0.31 * i for i in range(n)] if head != "polarbp2" else [40.0 + 7.0 * i for i in range(n)]
             pool = [torch.tensor([(1 - 2 * float(b)) * mags[(i + 3 * j) % n] for i, b in enumerate(wd.tolist())], dtype=f32) for j, wd in enumerate(pool)]
             pool.append(torch.tensor([0.0] * n, dtype=f32))          # all ties
+            if kind == "decoder" and head in ("softrm", "wagner", "minsum", "bp", "sc"):
+                # members of very different scale (a batch-wide normalisation would let one member decide another's fate) and a tenths-valued
+                # word whose weighted votes tie in exact arithmetic but not after a rescaling by a non-power-of-two
+                sgn = [1 - 2 * float(b_) for b_ in cw[2].tolist()]
+                tenths = [0.4, 0.2, -0.7, 0.1, 0.7, 0.8, 0.7, 0.8, -0.3, 0.6, -0.9, 0.5, 0.2, -0.4, 0.3, 0.1]
+                pool += [torch.tensor([s_ * 1e25 for s_ in sgn], dtype=f32), torch.tensor([s_ * 1e-25 for s_ in sgn], dtype=f32), torch.tensor([s_ * 1.3 for s_ in sgn], dtype=f32),
+                         torch.tensor(tenths[:n], dtype=f32)]
         if kind in ("decoder-int32", "decoder-int64"):
             dt = torch.int32 if kind.endswith("32") else torch.int64
             pool = [w.to(dt) for w in pool]
